@@ -182,6 +182,10 @@ var ctxPool = []model.Shared{
 	{Name: "C", Version: 1, Symbols: []string{}},
 	{Name: "C", Version: 4, Symbols: []string{"c1", "dup", "c3", "c4", "c5", "c6", "c7", "c8", "c9", "c10", "c11", "c12"}},
 	{Name: "D", Version: 2, Symbols: []string{"d1", "d2"}},
+	// versions whose decimal strings do not sort like the numbers (9 < 10 < 100)
+	{Name: "F", Version: 9, Symbols: []string{"f1", "f2"}},
+	{Name: "F", Version: 10, Symbols: []string{"f1", "f2", "f3", "f4"}},
+	{Name: "F", Version: 100, Symbols: []string{"f1", "f2", "f3", "f4", "f5", "f6"}},
 }
 
 var ctxLocalTexts = []string{"x", "y", "zed", "dup", "a1", "name", "q_1", "$ion", "hello", "w", "a b", "é", "k9"}
@@ -212,7 +216,7 @@ func genCatalog(r *prng.Rand) (*model.Catalog, string) {
 	}
 	cat := &model.Catalog{}
 	var desc []string
-	for _, name := range []string{"A", "B", "C", "D"} {
+	for _, name := range []string{"A", "B", "C", "D", "F"} {
 		vs := poolVersions(name)
 		switch r.Intn(5) {
 		case 0: // everything
@@ -342,7 +346,11 @@ func genHistory(r *prng.Rand, cat *model.Catalog, binary bool) []ctxEvent {
 		case k <= 2: // replacing table
 			var d model.LSTDecl
 			for j := r.Intn(4); j > 0; j-- {
-				name := []string{"A", "B", "C", "D", "E"}[r.Intn(5)]
+				name := []string{"A", "B", "C", "D", "E", "F", "F"}[r.Intn(7)]
+				if r.Chance(1, 12) {
+					// import clauses the specification says are ignored
+					name = []string{"$ion", ""}[r.Intn(2)]
+				}
 				vs := poolVersions(name)
 				ver := 1
 				if len(vs) > 0 {
@@ -350,6 +358,9 @@ func genHistory(r *prng.Rand, cat *model.Catalog, binary bool) []ctxEvent {
 				}
 				if r.Chance(1, 6) {
 					ver = r.Range(1, 5)
+					if r.Chance(1, 3) {
+						ver = r.Range(6, 120)
+					}
 				}
 				imp := model.ImportDecl{Name: name, Version: ver}
 				length := int64(3)
